@@ -209,6 +209,7 @@ def run_case(case):
             out = hexlib.fmt_traverse(lambda: trie.traverse_from(node, common.vary(s, True)))
             reads = db.reads - before
             res.emit("hx.travfrom 0 %d %s" % (reg, nibstr(s)), out)
+            res.emit("hx.travfromd %d %s" % (reg, nibstr(s)), out)      # raw level: the kept node's children read from the database
             res.tags.add("from-" + ("simulated" if simulated else "real"))
             full = hexlib.fmt_traverse(lambda: trie.traverse(p + s))
             # same node; partial results are relative to the start node
